@@ -91,6 +91,26 @@ class GuardGraph:
                 kt, kf, atoms = facts(t)
                 self.edge_facts[(n.id, "T")] = (kt, atoms)
                 self.edge_facts[(n.id, "F")] = (kf, atoms)
+        # ``try: x = table[key]`` / ``except KeyError:`` -- the handler runs exactly when the key is not in the table
+        # (EAFP spelling of ``if key in table: ... else: ...``): that fact is known on the way into the handler
+        for n in self.cfg.nodes:
+            if n.kind != "handler" or getattr(n, "handler_of", None) is None:
+                continue
+            h, tr = n.handler_of, n.stmt
+            if not (isinstance(tr, ast.Try) and len(tr.body) == 1 and len(tr.handlers) == 1 and isinstance(h.type, ast.Name) and h.type.id == "KeyError"):
+                continue
+            st = tr.body[0]
+            val = getattr(st, "value", None)
+            if not (isinstance(st, (ast.Assign, ast.AnnAssign, ast.Return, ast.Expr)) and isinstance(val, ast.Subscript) and isinstance(val.ctx, ast.Load)):
+                continue
+            simple = lambda e: isinstance(e, ast.Name) or (isinstance(e, ast.Attribute) and simple(e.value))
+            if not (simple(val.value) and simple(val.slice)):
+                continue
+            at = [x for x in self.cfg.nodes if x.stmt is st and x.ast is not None]
+            if not at:
+                continue
+            atom = ("op", "cmp:In", (flow.term(val.slice, at[0]), flow.term(val.value, at[0])))
+            self.edge_facts[(n.id, "n")] = ({(atom, False)}, {atom})
 
     def known(self, node, kind):
         return self.edge_facts.get((node.id, kind), (set(), set()))
